@@ -207,3 +207,5 @@ def run(ck, ctx):
         if not (clamp_k is not None and floors) and not n_fl:
             ck.floor("R05.2", 0, 1, "floor constants (table floor and high-angle store)")
     ck.guard(pexit, "R05")
+    from .c04 import configured_table_rules
+    ck.guard(lambda: configured_table_rules(ck, "R05.5", ctx, "pexit_grid", "exit-probability table"), "R05.5")
